@@ -10,13 +10,13 @@ CHECKS = {
          "TLC checks finality safety exhaustively on the fork-tree model LiskBFTTree (3-4 validators, <=9-10 blocks, <=2 leaves, Byzantine weight <1/3, "
          "optional parameter change); sampled full trees are replayed through the real liskbft.Module, every block's vote state compared with the spec and "
          "safety asserted on the real block ids and precommitted heights. The counting rules are additionally bound by a validated LiskBFT trace with parameter changes, and at system level Net.tla "
-         "(honest nodes: forging, LIP-0014 fork choice cascade, tie break, fast sync; Agreement, TreeSafety, HonestNoContra checked by TLC) is replayed on a network of real nodes over loopback: finalized prefixes of all nodes agree on real block ids.",
+         "(honest nodes: forging, LIP-0014 fork choice cascade, tie break, fast sync; Agreement, TreeSafety, HonestNoContra checked by TLC) is replayed on a network of real nodes over loopback: finalized prefixes of all nodes agree on real block ids. Round 13: every tree is also replayed through ONE liskbft.Module (one store per chain view, blocks interleaved by height) under metamorphic variants (genesis heights up to 2^32-3, weights scaled to 2^60; faithfulness of each variant checked in big-integer arithmetic), API.AreHeadersContradicting is evaluated on every ordered header pair of a tree, a parameter-change tree configuration and the sliding-window simulation run in the quick tier, and Net.tla offers invalid Byzantine blocks (contradicting header, wrong maxHeightPrevoted) mid-script.",
          "Bounded model, no unbounded proof; slots abstracted; hash collision freeness; my transcription of LIP-0058 is bound to the code by the replay.",
          "TLA+ fork-tree model checked by TLC + spec-to-implementation replay of TLC-generated trees", "DESIGN.md section 4 C01"),
  "C02": ("model_checking",
          "Trace validation: a seeded driver feeds header chains with parameter-change schedules (join/leave/re-weight/threshold, batch sizes 2-5, windows that slide) "
          "to the real liskbft.Module and logs the projected BFT store after every call; TLC accepts the log only if every logged state equals the state computed by "
-         "the LiskBFT operators (transcribed from LIP-0056/0058), and checks RoundRobinFinal/HeightsSane/Monotone in every state. Plus exhaustive single-chain enumeration by TLC replayed through the real module.",
+         "the LiskBFT operators (transcribed from LIP-0056/0058), and checks RoundRobinFinal/HeightsSane/Monotone in every state. Plus exhaustive single-chain enumeration by TLC replayed through the real module. Round 13: the trace spec also decides the GetBFTHeights triple, weights by identity, the validators hash (hand-written encoder), generator keys and the conversion functions of convert.go; validator lists are shuffled; a twin node runs every fourth chain with heights shifted by 2^16..2^31 and weights multiplied by 2^32-1, 2^32, 10^17 and must be explained by the same model state; one chain per run has 103 identities and a 309-entry window.",
          "Spec written from the LIPs; small integer weights; 5 validator identities; chains are sampled (seeded), the single-chain enumeration is exhaustive within 7 blocks / 2 validators.",
          "TLA+ trace validation of the real liskbft.Module (TLC) + replay of TLC-enumerated chains", "DESIGN.md section 4 C02"),
  "C07": ("model_checking",
@@ -31,27 +31,27 @@ CHECKS = {
  "C12": ("model_checking",
          "Trace validation (monitor form): a seeded driver runs operation sequences (set/del/get/has/range/iterate with limits and directions through several nested prefix views, "
          "snapshot/restore/delete-snapshot, commit, revert, raw db and snapshot-reader scans, empty values) on the real diffdb.Database over in-memory pebble and logs every call with its result; "
-         "TLC replays the log on StagedStore.tla whose reads are defined as the same read on db-with-staged-ops-applied and compares every result, the db dump after Commit with the model and after RevertDiff with the previous contents.",
+         "TLC replays the log on StagedStore.tla whose reads are defined as the same read on db-with-staged-ops-applied and compares every result, the db dump after Commit with the model and after RevertDiff with the previous contents. Round 13: all raw scan entry points (DB / Reader x Iterate / IterateKey), commits, reverts and snapshots through views, returned slices overwritten after logging, values compared by content, directed liskbft and batchdb phases, disk-backed pebble with reopen, two goroutines on two views under the race detector, hangs reported as deadlock:<fn>.",
          "Keys over a 4-letter byte alphabet up to length 5, values empty or one byte; limit 0 not generated; operation sequences are sampled (seeded).",
          "TLA+ trace validation (TLC monitor) of recorded calls on the real staged store", "DESIGN.md section 4 C12"),
  "C10": ("model_checking",
          "SMT.tla defines the LIP-0039 root as a term Tree(M) of the map alone; TLC enumerates update/delete/reopen histories (exhaustively for depth 2-3 over 6 hand-placed 16-bit keys, "
          "by simulation to depth 8-10 over 10 keys), checks the spec invariants and prints each history with the expected root term and query walks; the harness replays every history on the real trie "
          "(raw 2-byte and 32/38-byte embedded keys, map store and pebble), compares roots after every batch, proves and verifies query sets, compares proof contents with the spec walk and "
-         "requires every tampered proof whose claim disagrees with the map (or with another root's map) to be rejected. Tampered proofs include forged inclusions claimed deeper than the honest end of the walk with junk sibling hashes in front or spread over the list, and queries repeating or shadowing another query's position (two defects of Verify found and repaired this way). A crash of the trie on a goroutine of its own is reported as a violation and pinned to its history by a serial re-run.",
+         "requires every tampered proof whose claim disagrees with the map (or with another root's map) to be rejected. Tampered proofs include forged inclusions claimed deeper than the honest end of the walk with junk sibling hashes in front or spread over the list, and queries repeating or shadowing another query's position (two defects of Verify found and repaired this way). A crash of the trie on a goroutine of its own is reported as a violation and pinned to its history by a serial re-run. Round 13: empty batches, duplicate keys in a batch (either winner), harness-side reopen before steps, a store with batchdb semantics, full-universe / 4-7 key / repeated-key query sets, wrong-length key tampers, five wide shapes with mixed batches, collapse-and-refill and tampered wide proofs.",
          "Hash injectivity; 16-bit key patterns embedded in longer keys; duplicate keys inside a batch not generated. One open known finding (forged query shadowed by another query of the same proof).",
          "TLC-generated histories of a TLA+ term model replayed on the real trie (SHA-256 fold of the expected term)", "DESIGN.md section 4 C10"),
  "C11": ("model_checking",
          "RMT.tla: TLC checks the incremental append rule against the declarative LIP-0031 root/append path for every size 0..40 (140 thorough) and exports root/append-path terms; the harness compares "
          "Append, CalculateRoot, reload, GenerateProof/VerifyProof (all non-empty leaf subsets of lists up to 7 (9) leaves + sampled subsets of larger lists, shuffled query order, reuse of a proof), "
-         "CalculateRootFromUpdateData, Update, right witnesses at every position and CalculateRootFromAppendPath with the folded terms, and requires tampered leaves/roots/witnesses to be rejected. The walk continues to 1100 (thorough 4200) leaves; beyond 40 (140) the sizes next to powers of two and a sparse sample are replayed (found the prediction panic above 256 leaves).",
+         "CalculateRootFromUpdateData, Update, right witnesses at every position and CalculateRootFromAppendPath with the folded terms, and requires tampered leaves/roots/witnesses to be rejected. The walk continues to 1100 (thorough 4200) leaves; beyond 40 (140) the sizes next to powers of two and a sparse sample are replayed (found the prediction panic above 256 leaves). Round 13: RMT.tla models one tree OBJECT through histories of Append / Update / Reload over repeated, empty, 32-byte and long leaf values; after every operation proofs of other leaves, right witnesses, append path and prediction are compared on the same object and on the reloaded one; 885 deterministic subset shapes; inputs passed as sub-slices of one buffer.",
          "Hash injectivity; pairwise distinct leaf data.",
          "TLC-checked TLA+ term model (incremental = batch = declarative) + comparison of the real tree with the exported terms", "DESIGN.md section 4 C11"),
  "C03": ("model_checking",
          "Node.tla models the engine (chain, LiskBFT vote state per block, finalized height, temp blocks, events) with Accept(c) = the conjunction of every validity rule of the statement; "
          "TLC checks its properties exhaustively (chains <= 5-6 blocks, one parameter change) and generates scripts by simulation; the harness replays every step on the real Executer with a toy application "
          "(state/events compared after each step) and submits, at the end of every script, each of 28 single-rule mutants of the valid successor (header fields, slot, generator, signature, maxHeightPrevoted/Generated, "
-         "7 aggregate-commit deviations, roots, validatorsHash, static tx validity, payload size): each must be rejected leaving the full database dump, BFT heights and published events unchanged. Every mutant is offered twice: through process() (fork choice first) and through processValidated, the entry point of blocks downloaded by a synchronisation, there with an application that executes whatever it is handed so that only the engine's own rules stand; mutations include a maxHeightGenerated claim that denies the generator's latest block and fields only the signature protects.",
+         "7 aggregate-commit deviations, roots, validatorsHash, static tx validity, payload size): each must be rejected leaving the full database dump, BFT heights and published events unchanged. Every mutant is offered twice: through process() (fork choice first) and through processValidated, the entry point of blocks downloaded by a synchronisation, there with an application that executes whatever it is handed so that only the engine's own rules stand; mutations include a maxHeightGenerated claim that denies the generator's latest block and fields only the signature protects. Round 13: 57 mutation classes (both sides of every comparison, every static transaction rule, asset order, aggregate commit swapped after signing, payload of exactly Max and Max+1 bytes, first / last second of a slot, altered event data), a base candidate carrying a valid aggregate commit, a configuration with validator weights 4/3/2/1 and every minimal / just-too-light signer set; every probe is offered as a peer's block, as the node's own block and through processValidated.",
          "Toy application instead of pkg/framework; 3 validators; scripts sampled by TLC simulation (seeded); time pinned mid-slot; cryptography trusted.",
          "TLC-generated scripts and single-rule mutants of a TLA+ node model replayed on the real Executer", "DESIGN.md section 4 C03"),
  "C05": ("model_checking",
@@ -59,32 +59,32 @@ CHECKS = {
          "saved temp blocks must be retrievable, restart must land on the same state, and a chain reached through apply/delete detours must equal the same chain built directly on a fresh node. "
          "The revert-diff mechanics are additionally checked at key level (created/overwritten/deleted in one commit, empty values) through the StagedStore trace monitor (commit / revert steps). "
          "ChainStore.tla specifies the block store (Chain + DataAccess + cache) as a sequential object: after any add / remove / clear-temp / restart sequence every reader (tip, by height, by id, bulk lookups, transactions, events with the retention rule, "
-         "temporary blocks, finalized marker) is a function of the logical chain; TLC scripts are replayed on the real store with a block cache of 2, 3 and 515 blocks (5.8 M reader answers per quick run).",
+         "temporary blocks, finalized marker) is a function of the logical chain; TLC scripts are replayed on the real store with a block cache of 2, 3 and 515 blocks (5.8 M reader answers per quick run). Round 13: script families with chains of 14 blocks, two validator-set changes and four deletes (BFT-store pruning and window slide are reverted), with six deletes / four tie breaks / two restarts at finality 0, tie-break competitors with transactions and validator changes, raw key dump equality for every add;remove pair of the block store, genesis heights 0 and 70 000.",
          "Toy application; blocks with/without transactions, validator-set change, aggregate commits, finality advances; scripts sampled by TLC simulation.",
          "TLC-generated apply/delete/restart scripts replayed on the real Executer with database-dump equality + TLA+ trace monitor of diff reversal", "DESIGN.md section 4 C05"),
  "C08": ("model_checking",
          "Wire.tla is a TLA+ reference codec for the LIP-0027/0064 wire format (integers as base-128 digit sequences, so the uint64 range is covered); TLC checks round trip and canonicity of strict decoding exhaustively over "
          "short byte strings, generates the product of per-field deviation classes for the transaction schema with the expected verdict, and the Lisk32 checksum tables; the harness logs Encode/Decode/DecodeStrict of all 88 exported generated-codec types "
-         "(validated by TLC against the reference codec), feeds every deviant byte string to NewTransaction/DecodeStrict, and checks ID stability through store/load.",
+         "(validated by TLC against the reference codec), feeds every deviant byte string to NewTransaction/DecodeStrict, and checks ID stability through store/load. Round 13: 101 generated-codec types are driven (13 unexported ones through VerifCodecTypes() hooks), a second TLC deviant generator covers a strictly decoded schema with every field kind, deviant transactions are also offered inside blocks, decode inputs are overwritten afterwards (aliasing), IDs go through Sign / NewBlockHeaderWithValues / temporary blocks, Lisk32 case and prefix are decided in TLA+.",
          "Values of the generated types are sampled (seeded) apart from the exhaustive short-string / deviant / Lisk32-corruption spaces; Unicode NFC tables and SHA-256 trusted; unexported codec types unreachable.",
          "TLA+ reference codec checked by TLC + trace validation of the real codec + TLC-generated deviant encodings", "DESIGN.md section 4 C08"),
  "C13": ("fault_enumeration",
          "Crash.tla models a step as prepare / durable writes / cache update with a crash between any two sub-steps: TLC shows AtomicRecovery for the one-batch shape and a counterexample for a shape with a separate write (control). "
          "On the real node every file-system write/sync operation index of the last step (apply a block / delete the tip, with and without temp block; blocks with transactions, validator change, aggregate commit, finality advance) "
          "of TLC-generated Node scripts is used as a crash point on pebble's strict in-memory file system (unsynced data lost); the database is reopened, the node restarted, and the record (durable effects per key space, recovery invariants: "
-         "height index -> data, consensus store height = tip, diff iff block, finalized <= tip) is validated by CrashTrace.tla. Step kinds: block, delete, delete+temp, restore (re-application of a temporary block with removal of its temporary copy, as after a failed chain switch).",
+         "height index -> data, consensus store height = tip, diff iff block, finalized <= tip) is validated by CrashTrace.tla. Step kinds: block, delete, delete+temp, restore (re-application of a temporary block with removal of its temporary copy, as after a failed chain switch). Round 13: Crash.tla has two crash models (power loss: only synced writes survive; process death: everything written survives), multi-stage steps and redo; the harness compares the WHOLE recovered dump, enumerates the genesis commit, tie breaks, big-block removal and restoration, event pruning with WAL rotation inside a finality-raising step, and a chain longer than the vote window with a block cache of 2; 31 required facets.",
          "pebble batch atomicity and StrictMem's model of sync are trusted (torn WAL records not modelled); the toy application's state is rebuilt from headers at restart.",
          "crash-point enumeration on the real node over a strict in-memory file system, records validated by a TLA+ trace monitor", "DESIGN.md section 4 C13"),
  "C06": ("model_checking",
          "Certificate.tla (on Node.tla) prints, for node states reached by TLC-generated scripts (finality, on-chain aggregate commits, validator-set changes, 4 validators with weights 4/3/2/1), the verdict table of aggregate-commit verification over "
          "every height 0..tip+1 x every signer subset x {valid, signed for another chain, certificate of another block}, every set of certifying validators, and every single commit with 'may enter the pool'. The harness evaluates the real "
-         "verifyAggregateCommit with real BLS on every row, tampers aggregation bits, feeds single commits through singleCommitValidator (admission soundness) and requires GetAggregateCommit after Certify + gossip to pass the node's own verification. A second configuration with 8 validators (aggregation bitmap on a byte boundary) runs straight chains to finality with a signer family that brackets every threshold.",
+         "verifyAggregateCommit with real BLS on every row, tampers aggregation bits, feeds single commits through singleCommitValidator (admission soundness) and requires GetAggregateCommit after Certify + gossip to pass the node's own verification. A second configuration with 8 validators (aggregation bitmap on a byte boundary) runs straight chains to finality with a signer family that brackets every threshold. Round 13: Certificate.tla models the pool with history (hand-encoded gossip messages of 1-3 commits with 12 deviation kinds, Certify, the real broadcast tick, assembly) over blocks that are added, deleted and replaced, different certifier sets per height, a directed 118-block chain, 12 validators with weights up to 2^47, a concurrency phase and per-class non-vacuity guards.",
          "blst trusted; chains <= 10 blocks (first 100 heights); pool admission judged for soundness only.",
          "TLC-generated verdict tables of a TLA+ node/certificate model evaluated on the real Executer with real BLS", "DESIGN.md section 4 C06"),
  "C14": ("model_checking",
          "TxPool.tla: abstract pool (all / per-sender lists / processable runs / fee queue) with Add, Remove, ReorgStep as sets of permitted successors (nondeterministic where the statement is silent: eviction victim, evict-or-reject, pending); "
          "TLC checks index agreement, limits, one tx per (sender, nonce), replacement and gap-free processable runs on the complete reachable graph of 6 small configurations. Trace validation: seeded sequential, interleaved (reorg suspended inside the verifier) "
-         "and concurrent runs on the real TransactionPool record every call with the index snapshot; TxPoolTrace.tla requires every post-state to satisfy the invariants and to be a permitted successor; every call runs under a watchdog (liveness).",
+         "and concurrent runs on the real TransactionPool record every call with the index snapshot; TxPoolTrace.tla requires every post-state to satisfy the invariants and to be a permitted successor; every call runs under a watchdog (liveness). Round 13: the resumed state of a suspended promotion step is decided as a partial step in TLA+, publish verdicts are part of the model, the concurrent mode also runs under the race detector, the real Start()/ticker/End() loop runs with live slow subscribers and the announcement handler, read results are re-read after later calls, nonces near 2^63 / 2^64.",
          "Stub verifier with scripted answers; small transaction universes; concurrent mode judged at quiescence only.",
          "TLC model checking of TxPool.tla + TLA+ trace validation (monitor) of the real pool with watchdog", "DESIGN.md section 4 C14"),
  "C04": ("model_checking",
@@ -92,32 +92,32 @@ CHECKS = {
          "the scripts are replayed on the real Executer comparing the stored finalized height, the finalize events and the refusal to remove or replace finalized tips after every step. Sync scenarios (fast sync, block sync, corrupting and truncating peers, failed sync) on real "
          "networked nodes are validated by SyncTrace.tla: the finalized height never decreases and the block ids served for finalized heights never change. Reverts down to the finalized height (DeleteDown: what a sync with a chain forking below it attempts) "
          "are generated and the refusal at the finalized height checked; Net.tla (network of honest nodes) is replayed on real nodes: the stored finalized height per node follows the model and finalized ids are never replaced. "
-         "Same step: every file-system operation of the application of a finality-raising block is used as a crash point (Crash.tla / CrashTrace.tla, pebble strict in-memory fs): after the restart the marker has moved with the block or not at all.",
+         "Same step: every file-system operation of the application of a finality-raising block is used as a crash point (Crash.tla / CrashTrace.tla, pebble strict in-memory fs): after the restart the marker has moved with the block or not at all. Round 13: every height ever reported finalized is read back after every step (finalized-block-replaced / -missing), finalize events are judged separately on the node replay, the network replay and every sync path, scripts restart twice and contain mid-script invalid blocks, a block cache of 3 blocks and a genesis block at height 1000 are part of the configurations.",
          "Toy application; 3 validators; scenarios sampled (seeded); invalid tie-break competitors are probed at the end of every script (TieProbes).",
          "TLC model checking of Node.tla + replay of TLC scripts on the real Executer + TLA+ trace monitor of real sync scenarios", "DESIGN.md section 4 C04"),
  "C19": ("model_checking",
          "Sync.tla: BestPeers as a set of acceptable answers - TLC prints the table for all sequences of <= 4 peer tips (22,620 rows) and the real peer selection is evaluated on every row; HighestCommon / BlocksFrom specify the RPC handler answers, checked by SyncTrace.tla on "
          "calls made over loopback libp2p to a real 113-block node (cap 103 exercised); Outcomes specifies where a node may end after being offered a peer's tip; offer scenarios (own fork vs honest real peer, corrupting or truncating fake peer, near = fast sync, far = block sync, common block below finality) "
          "run through the real process()/sync path and every outcome is validated. Net.tla composes forging, the fork choice cascade, tie break and fast sync (common block among the sampled heights, not below the finalized height, ban otherwise, broken link after a ban) "
-         "for 3 honest nodes; TLC checks NeverWorse / Agreement exhaustively and its scripts are replayed on 3 real nodes over loopback, the acted-on node compared with the model after every step.",
+         "for 3 honest nodes; TLC checks NeverWorse / Agreement exhaustively and its scripts are replayed on 3 real nodes over loopback, the acted-on node compared with the model after every step. Round 13: peer table over ranks 0..2 and 5-6 peers under uint32 embeddings; servers and a third of the offers with a block cache of 8; peers 104-220 blocks ahead; peers that tamper payloads, serve a statically invalid block mid-segment, leave a gap, reorder or stop after k blocks; the node's fork carries transactions; a twin node vouches for the state after every offer; several-peers variants judged by the spec's BestPeers.",
          "3 validators; toy application; scenarios sampled (seeded); malformed sync requests belong to C09/C18.",
          "TLC-generated selection table + TLA+ trace monitor of real handler calls and real sync scenarios between in-process nodes", "DESIGN.md section 4 C19"),
  "C18": ("model_checking",
          "ConnGater.tla: per-IP score / ban expiry / blacklist, integer clock, separate Sweep action (either answer allowed between expiry and the sweep), rate limiter with window resets; TLC checks ThresholdBans, BannedRefused, BlockedRefused, SweptClean, "
          "WithinLimitNeverPenalised, AboveLimitPenalised etc. exhaustively (2 IPs incl. IPv6, penalties 10/50/100; 375 k + 979 k states) and generates schedules; every schedule is replayed on real connectionGater / rateLimit objects (1 tick = 2 s, actions mid-second with guard bands, "
-         "timing misses = inconclusive) comparing score, ban list and all gate answers after every step; 13 loopback scenarios on real libp2p hosts (malformed envelope, unknown procedure, rate excess, BanPeer, blacklist: disconnect, refused re-dial both directions, acceptance after expiry). Rate-focused schedules put both addresses on one procedure inside one rate window (a penalty of one peer must not change the count of another).",
+         "timing misses = inconclusive) comparing score, ban list and all gate answers after every step; 13 loopback scenarios on real libp2p hosts (malformed envelope, unknown procedure, rate excess, BanPeer, blacklist: disconnect, refused re-dial both directions, acceptance after expiry). Rate-focused schedules put both addresses on one procedure inside one rate window (a penalty of one peer must not change the count of another). Round 13: an IP is one identity whatever its spelling (dotted, ::ffff: forms) in penalties, blacklist and every gate; concurrent ticks with pollers under the race detector; 24 loopback scenarios on three loopback addresses (local vs remote address, outbound offenders, the real sync handlers with invalid requests, an envelope table, default limiter parameters, two connections per peer).",
          "Real-time mapping with guard bands; the sweep interval of a running Connection is the 10 s constant; InterceptUpgraded not exercised.",
          "TLC model checking of ConnGater.tla + replay of TLC schedules on the real gater / rate limiter + loopback scenarios", "DESIGN.md section 4 C18"),
  "C20": ("model_checking",
          "Locks.tla interprets lock programs extracted from the CURRENT sources by a go/ast extractor (57 programs: blockCache, DataAccess bulk lookups, certificate.Pool, EventEmitter, diffdb views, block-sync collector) under Go RWMutex semantics (a waiting writer blocks new readers): "
          "NoDeadlock, NoRace (lockset), ExactlyOnce (lost update) checked exhaustively per scenario. Every prediction is only a verdict once reproduced on the real code by the stress driver (readers vs a real Executer writer, bulk lookups with multiset checks, pool, emitter, diffdb; watchdog + goroutine dump) in a normal and a -race build; "
-         "observed-but-unmodelled failures are violations too, predicted-but-not-reproduced ones are logged. A reader that obtained a tip also looks up what the tip announces in the database (a complete COMMITTED tip); a harness process killed by a fatal error inside lisk-engine (concurrent map access) is reported as a violation.",
+         "observed-but-unmodelled failures are violations too, predicted-but-not-reproduced ones are logged. A reader that obtained a tip also looks up what the tip announces in the database (a complete COMMITTED tip); a harness process killed by a fatal error inside lisk-engine (concurrent map access) is reported as a violation. Round 13: the extractor also covers the sync RPC handlers and understands WaitGroups and channel loops (63 lock programs); stress scenarios with a block cache of 8 and bursts of deep removals, the real sync handlers served under a changing chain, bulk sizes 0..600 with duplicates and missing items anywhere, diffdb Range / RestoreSnapshot / Commit, emitter Emit / On / UnsubscribeAll in simultaneous rounds, Select results read outside the pool lock; observations always win over set-up guards.",
          "The Go memory model is not specified in TLA+ (the race detector is the implementation-side recorder); stress durations bound what is reproduced.",
          "go/ast lock-program extraction + TLC (Locks.tla) + stress/-race reproduction on the real code", "DESIGN.md section 4 C20"),
  "C09": ("exploration",
          "WireFuzz.tla (on Wire.tla) enumerates, for 22 network-facing schemas taken from a real node, every (field path, deviation class, truncation point) on top of valid messages (28.9 k cases) and an argument-shape model for the verifiers (20.7 k cases: bitmaps, key/signature lengths, "
          "proof shapes, indices, sizes); each case maps to ok | reject. The harness feeds every case, ~150 k structure-aware mutants, odd-but-decodable blocks and ALL byte strings up to length 3 to 217 entry points (every generated-codec Decode/DecodeStrict, constructors, gossip validators and handlers through the p2p envelope, "
-         "onRequest/onResponse, sync and txpool RPC handlers and response decoders, verifyAggregateCommit, process(), smt/rmt/BLS/ed25519 verifiers) under recover(), a 2 s deadline and an allocation ceiling, in a supervised child process. The surface of an RPC client is RpcFuzz.tla: transport (router.Invoke / HTTP handler / websocket server) x JSON-RPC envelope shape x method (every endpoint the engine registers, application namespace, malformed names) x params shape x field (1 258 cases, concretised from the real request types) plus bursts of simultaneous websocket clients; block sequences of one generator with unusual maxHeightGenerated go through process().",
+         "onRequest/onResponse, sync and txpool RPC handlers and response decoders, verifyAggregateCommit, process(), smt/rmt/BLS/ed25519 verifiers) under recover(), a 2 s deadline and an allocation ceiling, in a supervised child process. The surface of an RPC client is RpcFuzz.tla: transport (router.Invoke / HTTP handler / websocket server) x JSON-RPC envelope shape x method (every endpoint the engine registers, application namespace, malformed names) x params shape x field (1 258 cases, concretised from the real request types) plus bursts of simultaneous websocket clients; block sequences of one generator with unusual maxHeightGenerated go through process(). Round 13: a second supervised child runs TLC-generated SCENARIOS: a scripted adversarial sync peer driving process() into fast and block sync, stateful commit / transaction pools over three validator-set worlds, RPC request sequences (stored key-derivation parameters, post-then-get, subscribe-then-push to live / closed / non-reading clients), goroutine and heap leak batches, growth ratios under field amplification, 16-goroutine bursts; out-of-memory deaths are attributed to the call in flight.",
          "Absence of panics/hangs is established for the enumerated and sampled inputs only; Go memory safety, time and allocation are observed, not modelled; libp2p itself is not fuzzed.",
          "TLA+-enumerated malformation model + exhaustive short inputs executed against all decoders/verifiers under recover/deadline/allocation monitors", "DESIGN.md section 4 C09"),
  "C15": ("model_checking",
@@ -125,17 +125,17 @@ CHECKS = {
          "NoSelfContradiction, MhgLargestEver, PersistedBeforeHandoff, ForgeOutputAccepted (56 k states; control runs with the defective shapes must fail); scripts are replayed on a real generator.Generator wired to the real Executer and txpool, generator DB on a strict in-memory FS (crash at hand-off), every produced block processed by the same node, "
          "all signed headers checked pairwise for contradiction. Verification answers are ok / invalid / pending; the aggregate commit of a generated block is covered by the C06 pool cases (whatever GetAggregateCommit assembles must pass the node's own verification, incl. validator-set changes with lagging certification). "
          "Handover.tla: moving the validator to another node through the operator interface (setKeys / getStatus / setStatus / updateStatus of pkg/engine/endpoint + the persisted GeneratorInfo, restarts with plain keys): NoContradiction for every behaviour in which the operator follows the protocol (2.9 M states; controls: contradiction without the protocol, generation on two nodes reachable); "
-         "TLC behaviours drive two real nodes with the real endpoint and HandoverTrace.tla validates every answer, generated header and the generator's own stored info.",
+         "TLC behaviours drive two real nodes with the real endpoint and HandoverTrace.tla validates every answer, generated header and the generator's own stored info. Round 13: the unmodified forge() is followed by a restart and a further header, a go/ast guard keeps the synchronous copy equal to forge(), validator-set changes that permute the generator list precede forges, unsorted block assets, after-hook events, Fail results and ABI errors, fee ranks up to 2^40, payload limits filled to the byte.",
          "Toy application; 3 validators; crash after hand-off is C13's subject; hand-over on one linear chain (forks on one node are part (b)).",
          "TLC model checking of Generator.tla + replay of TLC scripts on the real generator / Executer / txpool", "DESIGN.md section 4 C15"),
  "C16": ("model_checking",
          "StateMachine.tla: application state over 2 stores x 3 keys, command scripts (writes, events, ok/fail), ExecuteTx / Commit (root = SMT.Tree of the state, deleted keys absent) / Revert / Crash+Restart; Atomic, EventsBookkeeping, RootFunctionOfState, RevertInverse checked exhaustively (243 k states quick, 4.9 M thorough); "
-         "~25 k histories replayed on the real framework.ABIHandler + statemachine.Executer with a scripted module using the engine's exact call sequences; events, store contents, state-DB dumps and state roots (SHA-256 fold of the spec term) compared after every step. The module's BeforeCommandExecute hook writes state and logs a revertible event: both must survive a failing command (the state 'before the command ran' is the state after the hooks).",
+         "~25 k histories replayed on the real framework.ABIHandler + statemachine.Executer with a scripted module using the engine's exact call sequences; events, store contents, state-DB dumps and state roots (SHA-256 fold of the spec term) compared after every step. The module's BeforeCommandExecute hook writes state and logs a revertible event: both must survive a failing command (the state 'before the command ran' is the state after the hooks). Round 13: hooks of every kind write state and emit events (full order compared), wrong roots are offered to Commit / Revert / Init (error, unchanged state, node still usable), every observation reads through Get / Has / Iterate / Range, store handles are held across the failure restore, two modules, event data / topics / height, the genesis path, crash points inside Commit / Revert / recovery, store keys of 2-64 bytes.",
          "Genesis execution is not modelled; the application is at most three blocks ahead of the engine at a restart (Lose: the engine comes back one or two tips behind); one key per store takes the empty byte string as a value.",
          "TLC model checking of StateMachine.tla + replay of TLC histories on the real ABIHandler", "DESIGN.md section 4 C16"),
  "C17": ("model_checking",
          "ReqResp.tla with implementation-shape constants (RegisterFirst, DeliverUnderLock, Buffered, TrySend): NoDeadlock, NoLostReply, Correlated, NoLeak, liveness under fairness checked exhaustively for the shape the traces exhibit and the safe shape (181 k states at 2 calls x 1 retry); "
-         "two real MessageProtocols on loopback with schedule-point hooks: random concurrent traffic (latencies around the timeout, cancellations, duplicates) validated by ReqRespTrace.tla, direct assertions (every call returns in time with the payload of its own request, no pending entry left), and forced schedules for the lost-reply and deliver-under-lock interleavings decided from the real outcome. The forced lost-reply schedule counts a reply dropped before registration as well as one that found its pending entry and still let the attempt time out; schedules that cannot be established on a busy machine are retried.",
+         "two real MessageProtocols on loopback with schedule-point hooks: random concurrent traffic (latencies around the timeout, cancellations, duplicates) validated by ReqRespTrace.tla, direct assertions (every call returns in time with the payload of its own request, no pending entry left), and forced schedules for the lost-reply and deliver-under-lock interleavings decided from the real outcome. The forced lost-reply schedule counts a reply dropped before registration as well as one that found its pending entry and still let the attempt time out; schedules that cannot be established on a busy machine are retried. Round 13: ReqResp.tla has the shape constant SendUnderLock and stalled sends; the trace spec requires every reply the remote handler produced to reach the lookup and no timer to fire early; traffic profiles with a real rate limit, symmetric and nested requests, failing sends, error / empty / nil replies, bursts of 64 callers and Stop while waiting; forced scenarios for cancel at the delivery point, a peer that accepts TCP and never speaks, payloads up to 5 MiB.",
          "Timing uses generous slack; forced schedules that cannot be established are inconclusive; retry count is read-only.",
          "TLC model checking of ReqResp.tla + trace validation and hook-forced schedules on real loopback hosts", "DESIGN.md section 4 C17"),
 }
